@@ -117,7 +117,7 @@ class Stochastic(BigSMILESbase):
         self._validate()
 
     def _validate(self):
-        for bd in self.bond_descriptors:
+        for bd in self.bond_descriptors + [self.left_terminal, self.right_terminal]:
             if bd.transitions is not None and len(bd.transitions) != len(self.bond_descriptors):
                 raise RuntimeError(
                     f"Invalid transition length in bond descriptor {len(bd.transitions)} but the stochastic element has only {len(self.bond_descriptors)} descriptors."
@@ -130,7 +130,7 @@ class Stochastic(BigSMILESbase):
 
     @property
     def generable(self):
-        for bond in self.bond_descriptors:
+        for bond in self.bond_descriptors + [self.left_terminal, self.right_terminal]:
             if not bond.generable:
                 return False
         for token in self.repeat_tokens + self.end_tokens:
